@@ -85,16 +85,20 @@ def fmt2(ctx: Ctx, which: str = "C18") -> None:
         for s in ast.walk(fn):
             if isinstance(s, ast.If) and hide in norm(s.test):
                 found = True
-                try:
-                    ok, cex = equivalent(s.test, lambda e: e[hide] and not e[show], [hide, show])
-                except AnalysisError as ex:
-                    ok, cex = False, str(ex)
                 last = s.body[-1]
-                act_ok = isinstance(last, ast.Continue) if act == "continue" else isinstance(last, ast.Return)
-                if ok and act_ok:
-                    ctx.R.ok("FMT-2", f"{q}: skipped iff {hide} and not {show}")
+                skips = isinstance(last, (ast.Continue, ast.Return)) and len(s.body) == 1
+                try:
+                    if skips:
+                        ok, cex = equivalent(s.test, lambda e: e[hide] and not e[show], [hide, show])
+                    else:  # the test guards the processing itself: keep-form
+                        ok, cex = equivalent(s.test, lambda e: not (e[hide] and not e[show]), [hide, show])
+                except AnalysisError as ex:
+                    ctx.R.undecided("FMT-2", f"{q}: {ex}")
+                    continue
+                if ok:
+                    ctx.R.ok("FMT-2", f"{q}: skipped iff {hide} and not {show}" + ("" if skips else " (keep-form)"))
                 else:
-                    ctx.R.fail("FMT-2", mod, s, f"{q}: a hidden frame/context must be skipped iff it is hidden and show_hidden_frames is off; {cex if not ok else 'wrong action'}",
+                    ctx.R.fail("FMT-2", mod, s, f"{q}: a hidden frame/context must be skipped iff it is hidden and show_hidden_frames is off; counterexample {cex}",
                                construct=f"{q}: visibility test")
         if not found:
             ctx.R.fail("FMT-2", mod, fn, f"{q}: no visibility test on {hide}: hidden items are always shown", construct=f"{q}: visibility test")
@@ -183,6 +187,8 @@ def _ends_nl(e: ast.AST, ok_vars: Set[str]) -> bool:
         return e.id in ok_vars
     if isinstance(e, ast.Call) and norm(e.func) == "self._format_header":
         return True
+    if isinstance(e, ast.IfExp):
+        return _ends_nl(e.body, ok_vars) and _ends_nl(e.orelse, ok_vars)
     return False
 
 
@@ -209,13 +215,15 @@ def fmt5(ctx: Ctx) -> None:
                 n += 1
                 if _ends_nl(e, okv):
                     ctx.R.ok("FMT-5", f"{q}: {norm(e)[:60]}", "newline-terminated")
+                elif isinstance(e, (ast.Name, ast.Call, ast.Attribute, ast.Subscript)):
+                    ctx.R.undecided("FMT-5", f"{q}: cannot see whether `{norm(e)[:50]}` ends in a newline")
                 else:
                     ctx.R.fail("FMT-5", mod, s, f"{q}: a produced line does not end in a newline: str() glues it to the next line", construct=f"{q}: {norm(e)[:80]}")
     if n < 12:
         raise AnalysisError(f"FMT-5: {n} produced lines found (>= 12 confirmed by hand)")
     # _format_error splits embedded newlines
     fe = mod.fn("Stack._format_error")
-    if "splitlines(True)" in norm(fe):
+    if "splitlines(True)" in norm(fe) or "splitlines(keepends=True)" in norm(fe):
         ctx.R.ok("FMT-5", "traceback chunks are split into single lines keeping their terminators")
     else:
         ctx.R.fail("FMT-5", mod, fe, "multi-line traceback chunks must be split into single newline-terminated lines", construct="splitlines(True)")
